@@ -169,10 +169,14 @@ func (p *Path) block(fr *frame, th *thread, cond func() bool, what string, pos t
 
 // yieldAll lets every other runnable thread run until it blocks or finishes.
 func (p *Path) yieldAll(th *thread) {
-	for {
+	for n := 0; ; n++ {
 		next := p.pickNext(th)
 		if next == nil {
 			return
+		}
+		if n > 100000 {
+			// two threads yielding to each other forever (a harness must not yield from two threads at once)
+			panic(engineErr{"vYield livelock: another thread keeps yielding back"})
 		}
 		p.switchTo(th, next)
 	}
